@@ -215,47 +215,58 @@ func ruleExpReductionExact(w *World, r *RuleResult) {
 		r.anchorMissing("(*Context).Exp operand parameter")
 		return
 	}
-	x := f.Params[xi]
 	var bad []string
 	n := 0
-	for _, c := range callsIn(f) {
-		g := callee(c)
-		if g == nil || !w.inPkg(g) {
-			continue
-		}
-		recv := g.Signature.Recv()
-		if recv == nil {
-			continue
-		}
-		rt := w.apdTypeName(recv.Type())
-		isOperand := false
-		for j, a := range c.Common().Args {
-			if j > 0 && a == ssa.Value(x) && j != destArgIndex(w, g) {
-				isOperand = true
+	// scan(g, x): how g uses its value x (the operand, or the operand handed on to an unexported helper)
+	var scan func(g *ssa.Function, x ssa.Value, depth int)
+	scan = func(g *ssa.Function, x ssa.Value, depth int) {
+		for _, c := range callsIn(g) {
+			h := callee(c)
+			if h == nil || !w.inPkg(h) {
+				continue
 			}
-		}
-		if !isOperand {
-			continue
-		}
-		n++
-		if rt != "Context" && rt != "ErrDecimal" {
-			continue // exact Decimal methods
-		}
-		if g.Name() == "shouldSetAsNaN" || g.Name() == "setAsNaN" {
-			continue // NaN handling, no arithmetic
-		}
-		// a context whose precision is computed from x's own digit count loses nothing
-		prec := false
-		for l := range w.valueAndControlLeaves(f, c.Common().Args[0]) {
-			if l == "call:(*Decimal).NumDigits" {
-				prec = true
+			argIdx := -1
+			for j, a := range c.Common().Args {
+				if a == x && (h.Signature.Recv() == nil || j > 0 || !isContextPtr(a.Type())) {
+					argIdx = j
+				}
 			}
+			if argIdx < 0 {
+				continue
+			}
+			recv := h.Signature.Recv()
+			rt := ""
+			if recv != nil {
+				rt = w.apdTypeName(recv.Type())
+			}
+			if argIdx == destArgIndex(w, h) && (rt == "Context" || rt == "ErrDecimal") {
+				continue // x is the destination of that call, not an operand
+			}
+			n++
+			if h.Name() == "shouldSetAsNaN" || h.Name() == "setAsNaN" {
+				continue // NaN handling, no arithmetic
+			}
+			if (h.Object() == nil || !h.Object().Exported()) && depth < 3 && argIdx < len(h.Params) {
+				scan(h, h.Params[argIdx], depth+1) // a helper of this operation: look inside
+				continue
+			}
+			if rt != "Context" && rt != "ErrDecimal" {
+				continue // exact Decimal methods
+			}
+			// a context whose precision is computed from x's own digit count loses nothing
+			prec := false
+			for l := range w.valueAndControlLeaves(g, c.Common().Args[0]) {
+				if l == "call:(*Decimal).NumDigits" {
+					prec = true
+				}
+			}
+			if prec {
+				continue
+			}
+			bad = append(bad, fmt.Sprintf("%s at %s rounds the operand itself to the working precision", w.calleeName(c), w.instrPos(c)))
 		}
-		if prec {
-			continue
-		}
-		bad = append(bad, fmt.Sprintf("%s at %s rounds the operand itself to the working precision", w.calleeName(c), w.instrPos(c)))
 	}
+	scan(f, f.Params[xi], 0)
 	if len(bad) > 0 {
 		r.bad(key, w.pos(f.Pos()), "digits of x beyond the working precision are dropped before the result is raised to the power 10^t (Exp(100.123456789) at precision 5 returned 3.0308E+43 for 3.0413E+43): "+joinStrings(bad))
 	} else {
